@@ -180,7 +180,7 @@ def jacobian(pars, x, y):
 
     matrix = []
 
-    for i in range(pars['components'].value):
+    for i in range(int(pars['components'].value)):
         prefix = "c{0}_".format(i)
         amp = pars[prefix + 'amp'].value
         xo = pars[prefix + 'xo'].value
@@ -259,7 +259,7 @@ def emp_jacobian(pars, x, y):
     eps = 1e-5
     matrix = []
     model = ntwodgaussian_lmfit(pars)(x, y)
-    for i in range(pars['components'].value):
+    for i in range(int(pars['components'].value)):
         prefix = "c{0}_".format(i)
         for p in ['amp', 'xo', 'yo', 'sx', 'sy', 'theta']:
             if pars[prefix + p].vary:
@@ -356,7 +356,7 @@ def hessian(pars, x, y):
     hmat = np.zeros((ntvar, ntvar, x.shape[0], x.shape[1]))
     npvar = 0
 
-    for i in range(pars['components'].value):
+    for i in range(int(pars['components'].value)):
         prefix = "c{0}_".format(i)
         amp = pars[prefix + 'amp'].value
         xo = pars[prefix + 'xo'].value
@@ -658,7 +658,7 @@ def emp_hessian(pars, x, y):
     """
     eps = 1e-5
     matrix = []
-    for i in range(pars['components'].value):
+    for i in range(int(pars['components'].value)):
         model = emp_jacobian(pars, x, y)
         prefix = "c{0}_".format(i)
         for p in ['amp', 'xo', 'yo', 'sx', 'sy', 'theta']:
@@ -1138,7 +1138,7 @@ def ntwodgaussian_lmfit(params):
             Model
         """
         result = None
-        for i in range(params['components'].value):
+        for i in range(int(params['components'].value)):
             prefix = "c{0}_".format(i)
             # I hope this doesn't kill our run time
             amp = np.nan_to_num(params[prefix + 'amp'].value)
@@ -1278,7 +1278,7 @@ def covar_errors(params, data, errs, B, C=None):
             J = lmfit_jacobian(params, mask[0], mask[1], errs=errs)
             covar = np.transpose(J).dot(inv(C)).dot(J)
             onesigma = np.sqrt(np.diag(inv(covar)))
-        except (np.linalg.linalg.LinAlgError, ValueError) as _:
+        except (np.linalg.LinAlgError, ValueError) as _:
             C = None
 
     if C is None:
@@ -1286,10 +1286,10 @@ def covar_errors(params, data, errs, B, C=None):
             J = lmfit_jacobian(params, mask[0], mask[1], B=B, errs=errs)
             covar = np.transpose(J).dot(J)
             onesigma = np.sqrt(np.diag(inv(covar)))
-        except (np.linalg.linalg.LinAlgError, ValueError) as _:
+        except (np.linalg.LinAlgError, ValueError) as _:
             onesigma = [-2] * len(mask[0])
 
-    for i in range(params['components'].value):
+    for i in range(int(params['components'].value)):
         prefix = "c{0}_".format(i)
         j = 0
         for p in ['amp', 'xo', 'yo', 'sx', 'sy', 'theta']:
